@@ -102,9 +102,52 @@ fn accepts(min: usize, max: Option<usize>, n: usize) -> bool {
 #[derive(Clone, Debug, Serialize, Deserialize)]
 pub struct Case {
     pub l: Vec<MV>,
-    pub callee: usize,
+    /// callee expression text (a name from the prelude, an anonymous lambda, or a built-in)
+    pub callee: String,
+    /// true = used as reduce's accumulator function
+    pub acc: bool,
     pub x: MV,
     pub init: MV,
+}
+
+/// (min args, max args, class) of a callee: the table for lambdas, the declared arity for built-ins
+fn callee_meta(callee: &str) -> (usize, Option<usize>, String) {
+    if let Some(c) = CALLEES.iter().find(|c| c.0 == callee) {
+        return (c.1, c.2, c.4.to_string());
+    }
+    if let Some(b) = blots_core::functions::BuiltInFunction::from_ident(callee) {
+        use blots_core::values::FunctionArity as A;
+        return match b.arity() {
+            A::Exact(n) => (n, Some(n), format!("builtin-exact{}", n)),
+            A::AtLeast(n) => (n, None, format!("builtin-atleast{}", n)),
+            A::Between(a, b) => (a, Some(b), format!("builtin-{}to{}", a, b)),
+        };
+    }
+    match callee {
+        "(() => 1)" => (0, Some(0), "arity0".into()),
+        "((a, b, c) => a)" => (3, Some(3), "arity3".into()),
+        "(x => x)" => (1, Some(1), "anonymous".into()),
+        _ => (1, Some(1), "unknown".into()),
+    }
+}
+
+/// every callee text used by the generators
+fn all_callees() -> Vec<(String, bool)> {
+    let mut v: Vec<(String, bool)> = CALLEES.iter().map(|c| (c.0.to_string(), c.3 == Kind::Acc)).collect();
+    // ill-fitting lambdas in both roles
+    for extra in ["(() => 1)", "((a, b, c) => a)", "inc", "(x => x)", "rest"] {
+        v.push((extra.to_string(), false));
+        v.push((extra.to_string(), true));
+    }
+    // every built-in in both roles (print writes to stderr and time_now is impure: skipped)
+    for name in blots_core::functions::get_built_in_function_idents() {
+        if name == "print" || name == "time_now" {
+            continue;
+        }
+        v.push((name.to_string(), false));
+        v.push((name.to_string(), true));
+    }
+    v
 }
 
 pub struct Forms;
@@ -145,7 +188,10 @@ impl Check for Forms {
         true
     }
     fn run(&self, c: &Case, ctx: &mut Ctx) -> Outcome {
-        let (callee, min, max, kind, class) = CALLEES[c.callee % CALLEES.len()];
+        let callee = c.callee.as_str();
+        let (min, max, class_s) = callee_meta(callee);
+        let class = class_s.as_str();
+        let kind = if c.acc { Kind::Acc } else { Kind::Unary };
         let sess = match session() {
             Ok(s) => s,
             Err(e) => fail!("harness:prelude", "{}", e),
@@ -277,7 +323,11 @@ pub fn strategy() -> BoxedStrategy<Case> {
         elem(),
         prop_oneof![Just(num(0.0)), Just(MV::List(vec![])), elem()],
     )
-        .prop_map(|(l, ci, x, init)| Case { l, callee: pick_idx(ci, CALLEES.len()), x, init })
+        .prop_map(|(l, ci, x, init)| {
+            let all = all_callees();
+            let (callee, acc) = all[pick_idx(ci, all.len())].clone();
+            Case { l, callee, acc, x, init }
+        })
         .boxed()
 }
 
@@ -290,10 +340,10 @@ pub fn run(ctx: &mut Ctx) {
         vec![num(0.0), num(5.0), num(2.0), num(2.0), num(6.0)],
     ];
     let mut cases = Vec::new();
-    for ci in 0..CALLEES.len() {
+    for (callee, acc) in all_callees() {
         for l in &fixed {
-            cases.push(Case { l: l.clone(), callee: ci, x: num(4.0), init: num(0.0) });
-            cases.push(Case { l: l.clone(), callee: ci, x: MV::List(vec![num(2.0), num(3.0)]), init: MV::List(vec![]) });
+            cases.push(Case { l: l.clone(), callee: callee.clone(), acc, x: num(4.0), init: num(0.0) });
+            cases.push(Case { l: l.clone(), callee: callee.clone(), acc, x: MV::List(vec![num(2.0), num(3.0)]), init: MV::List(vec![]) });
         }
     }
     ctx.run_enum(&Forms, cases.into_iter(), false);
